@@ -1505,6 +1505,10 @@ export class AllOfRuntype extends BaseRuntype {
   reportDecodeError(ctx: ReportContext, input: unknown): DecodeError[] {
     const acc: DecodeError[] = [];
     for (const v of this.schemas) {
+      // only the members that reject the value have something to report
+      if (v.validate(ctx, input)) {
+        continue;
+      }
       const errors = v.reportDecodeError(ctx, input);
       appendErrors(acc, errors);
     }
